@@ -499,6 +499,20 @@ func c10SanitizeComposedScenario(x *mc.X) *mc.Outcome {
 	zh.Reset()
 	out := &mc.Outcome{Traces: 1, Nontrivial: len(m) > 1, Sig: fmt.Sprintf("sanitize|%d|%v", len(m), collect)}
 	out.Sample = map[string]any{"map": desc, "sanitized": got}
+	if pmsg == "" && reflect.DeepEqual(got, want) {
+		// the returned lists are the caller's: adding a message of its own to one of them changes no other list
+		for _, k := range sortedKeysS(got) {
+			got[k] = append(got[k], "added by the caller to "+k)
+		}
+		for k, l := range want {
+			if len(got[k]) != len(l)+1 || !reflect.DeepEqual(got[k][:len(l)], l) {
+				x.Note("issue map (code@Path per entry): %v; after the caller appended one message of its own to every sanitized list", desc)
+				out.Viol = append(out.Viol, &mc.Violation{Key: "C10:sanitize-lists-share-memory", What: "appending to one sanitized list changed another", Expected: fmt.Sprint(l), Observed: fmt.Sprint(got[k])})
+				return out
+			}
+		}
+		return out
+	}
 	if pmsg != "" || !reflect.DeepEqual(got, want) {
 		x.Note("issue map (code@Path per entry): %v; entry point SanitizeMapAndCollect=%v", desc, collect)
 		out.Viol = append(out.Viol, &mc.Violation{Key: "C10:sanitize-composed-map", What: "SanitizeMap does not return the same keys and order carrying only the messages", Expected: fmt.Sprint(want), Observed: fmt.Sprintf("panic=%q %v", pmsg, got)})
@@ -577,6 +591,15 @@ func c10EmptyTagScenario(x *mc.X) *mc.Outcome {
 		out.Viol = append(out.Viol, &mc.Violation{Key: fmt.Sprintf("C10:empty-zog-tag:%d", mode), What: "issues below a field whose zog tag is explicitly empty are not keyed by the key chain the tag defines", Expected: fmt.Sprint(want), Observed: fmt.Sprintf("panic=%q %v", pmsg, got)})
 	}
 	return out
+}
+
+func sortedKeysS(m map[string][]string) []string {
+	var ks []string
+	for k := range m {
+		ks = append(ks, k)
+	}
+	sort.Strings(ks)
+	return ks
 }
 
 func c10Items(tier string, mk func(tier string, tags map[string]int, focus []string, deep bool, elems int) mc.Scenario) []Item {
